@@ -60,3 +60,10 @@ package banderwagon
 //@ ensures trusted && result == nil ==> p.inner.X == fp_of_int(BEb(buf[0:32]) % P_MOD) && p.inner.Y == fp_of_int(BEb(buf[32:64]) % P_MOD) && p.inner.Z == fp_one
 //@ ensures result != nil ==> *p == old(*p)
 //@ modifies *p
+
+// ---- encoding (C07)
+
+//@ func Element.Bytes
+//@ props C07 C10 C14
+//@ prelude field curve bytesint
+//@ ensures bytesOfFp(result, encx(p.inner.X, p.inner.Y, p.inner.Z))
